@@ -26,14 +26,17 @@ const (
 	layMuxTLS           // ... over TLS
 	layHostNoise        // basic-host streams (lazy multistream streamWrapper) over yamux over Noise
 	layHostTLS          // ... over TLS
+	layHostQuic         // basic-host streams over a QUIC connection (quic-go: its own TLS 1.3 and its own streams) over simulated UDP
 	nLayers
 )
 
-var layerName = [...]string{"noise", "tls", "pnet", "mux-noise", "mux-tls", "host-noise", "host-tls"}
+var layerName = [...]string{"noise", "tls", "pnet", "mux-noise", "mux-tls", "host-noise", "host-tls", "host-quic"}
+
+func isQuicLayer(l int) bool { return l == layHostQuic }
 
 func isConnLayer(l int) bool { return l <= layPnet }
 func isTLSLayer(l int) bool  { return l == layTLS || l == layMuxTLS || l == layHostTLS }
-func isHostLayer(l int) bool { return l == layHostNoise || l == layHostTLS }
+func isHostLayer(l int) bool { return l == layHostNoise || l == layHostTLS || l == layHostQuic }
 
 // fault strata
 const (
@@ -123,9 +126,11 @@ type stallPlan struct {
 }
 
 type closePlan struct {
-	on    bool
-	sideB bool          // which side closes its end of the connection once all ITS tasks are done
-	delay time.Duration // after that instant
+	on     bool
+	sideB  bool          // which side closes its end of the connection once all ITS tasks are done
+	delay  time.Duration // after that instant
+	abrupt bool          // stream layers: the side does not wait for its tasks but closes the connection at time `at`,
+	at     time.Duration // in the middle of whatever is going on (a peer that goes away): everybody gets errors, nobody wrong data
 }
 
 // sacPlan is one sacrificial bare Noise session of the prelude (Noise-based layers): A writes one frame of size
@@ -137,7 +142,38 @@ type sacPlan struct {
 	ops   []int // after the first Close: 0 = Close again, 1 = Read with a small buffer, 2 = Read until error (drains the queue)
 }
 
+// udpPlan (QUIC layer): what the simulated UDP wire does to datagrams during the data phase, until heal.
+type udpPlan struct {
+	drop, dup int // permille
+	lat       []time.Duration
+}
+
+// QUIC adversary: per datagram of the data phase, with probability rate/1000, one action.
+const (
+	qFlipHeader = iota // one bit in the first bytes (flags, connection id, packet number)
+	qFlipMiddle        // one bit in the middle of the protected payload
+	qFlipTag           // one bit in the last 16 bytes (AEAD tag)
+	qTruncate          // the datagram is cut short
+	qAppend            // 1-16 bytes are appended
+	qReplay            // an older datagram of the same flow travels in its place
+	qSwap              // the datagram is held back, the next one overtakes it, it travels in place of the one after (which is lost)
+	qDrop              // nil
+	qMixed             // any of the above, drawn per datagram
+)
+
+var qadvName = [...]string{"flip-header", "flip-middle", "flip-tag", "truncate", "append", "replay", "swap", "drop", "mixed"}
+
+type qadvPlan struct {
+	on     bool
+	rate   int // permille of datagrams attacked
+	action int
+}
+
 type plan struct {
+	udp      udpPlan
+	qadv     qadvPlan
+	heal     time.Duration // QUIC layer: wire faults and the adversary stop this long after the data phase began
+	randSeed uint64        // QUIC layer: seed of the run's crypto/rand (simrand)
 	sac      []sacPlan
 	ewd      [2]bool // raw endpoint A / B returns the last bytes of the stream together with io.EOF in one Read call
 	pclose   closePlan
@@ -155,6 +191,13 @@ func (p *plan) describe() []string {
 	var out []string
 	out = append(out, fmt.Sprintf("layer=%s stratum=%s link=%s streams=%d adversary=[%s] stall=%+v peer-close=%+v latencies=%v",
 		layerName[p.layer], stratumName[p.stratum], modeName(p.mode), p.nstreams, p.adv, p.stall, p.pclose, p.lat))
+	if isQuicLayer(p.layer) {
+		qa := "none"
+		if p.qadv.on {
+			qa = fmt.Sprintf("%s on %d permille of the datagrams", qadvName[p.qadv.action], p.qadv.rate)
+		}
+		out = append(out, fmt.Sprintf("  QUIC wire during the data phase: loss=%d/1000 duplication=%d/1000 latencies=%v adversary=[%s]; all of it stops %v after the data phase began", p.udp.drop, p.udp.dup, p.udp.lat, qa, p.heal))
+	}
 	out = append(out, fmt.Sprintf("  raw endpoints return (n>0, io.EOF) for the last bytes: A=%v B=%v", p.ewd[0], p.ewd[1]))
 	for i, sp := range p.sac {
 		out = append(out, fmt.Sprintf("  prelude %d: sacrificial Noise session: A writes one %d-byte frame, B reads %d bytes, Close, then ops %v (0=Close 1=Read small 2=Read until error)", i, sp.size, sp.first, sp.ops))
@@ -192,7 +235,8 @@ var (
 
 func genPlan(g simrt.Gen) *plan {
 	p := &plan{}
-	p.layer = g.Weighted(6, 3, 2, 3, 2, 3, 2)
+	// the QUIC layer was appended: small tape values (minimised replays) keep their meaning
+	p.layer = g.Weighted(6, 3, 2, 3, 2, 3, 2, 4)
 	p.stratum = g.Weighted(5, 2, 1, 4, 2)
 	if p.stratum == stAdversary && p.layer == layPnet {
 		p.stratum = stTiming // the PSK stream cipher is not authenticated: fidelity part only
@@ -203,7 +247,7 @@ func genPlan(g simrt.Gen) *plan {
 	if !isConnLayer(p.layer) {
 		p.nstreams = 1 + g.Weighted(4, 3, 2, 1)
 	}
-	if p.stratum == stTiming {
+	if p.stratum == stTiming && !isQuicLayer(p.layer) {
 		p.lat = timingLat
 	}
 	budget := 700000
@@ -212,6 +256,10 @@ func genPlan(g simrt.Gen) *plan {
 		for d := 0; d < 2; d++ {
 			p.ch[s][d] = genChan(g, p, small, &budget)
 		}
+	}
+	if isQuicLayer(p.layer) {
+		genQuic(g, p)
+		return p
 	}
 	switch p.stratum {
 	case stAdversary:
@@ -232,12 +280,51 @@ func genPlan(g simrt.Gen) *plan {
 		p.pclose.on = true
 		p.pclose.sideB = g.Bool()
 		p.pclose.delay = []time.Duration{0, time.Millisecond, time.Second}[g.Int(3)]
+		genAbrupt(g, p)
 	}
 	p.ewd[0], p.ewd[1] = g.Chance(1, 3), g.Chance(1, 3)
 	if p.layer == layNoise || p.layer == layMuxNoise || p.layer == layHostNoise {
 		genSac(g, p)
 	}
 	return p
+}
+
+func genAbrupt(g simrt.Gen, p *plan) {
+	if !isConnLayer(p.layer) && g.Chance(1, 2) {
+		p.pclose.abrupt = true
+		p.pclose.at = []time.Duration{0, time.Millisecond, 20 * time.Millisecond, time.Second, 3 * time.Second}[g.Int(5)]
+	}
+}
+
+var quicLat = [][]time.Duration{nil, {0, time.Millisecond, 15 * time.Millisecond}, {0, 5 * time.Millisecond, 80 * time.Millisecond, 400 * time.Millisecond}}
+var quicHeal = []time.Duration{20 * time.Millisecond, time.Second, 10 * time.Second, 40 * time.Second}
+
+// genQuic: the fault strata read for QUIC. clean = a perfect wire; timing = latency per datagram copy (reordering) plus
+// the reader deadlines / writer pauses / late readers of the timing stratum; "stall" = the faults UDP really has: loss up
+// to 30 %, duplication, reordering; adversary = datagrams rewritten in flight; peer-close as everywhere. Loss and the
+// adversary stop after p.heal (liveness is only asserted after that).
+func genQuic(g simrt.Gen, p *plan) {
+	switch p.stratum {
+	case stTiming:
+		p.udp.lat = quicLat[1+g.Int(2)]
+	case stStall:
+		p.udp.drop = []int{30, 120, 300}[g.Int(3)]
+		p.udp.dup = []int{0, 50}[g.Int(2)]
+		p.udp.lat = quicLat[g.Int(3)]
+		p.heal = quicHeal[g.Int(len(quicHeal))]
+	case stAdversary:
+		p.qadv.on = true
+		p.qadv.rate = []int{30, 150, 400}[g.Int(3)]
+		p.qadv.action = g.Int(qMixed + 1)
+		p.udp.lat = quicLat[g.Int(3)]
+		p.heal = quicHeal[g.Int(len(quicHeal))]
+	case stPeerClose:
+		p.pclose.on = true
+		p.pclose.sideB = g.Bool()
+		p.pclose.delay = []time.Duration{0, time.Millisecond, time.Second}[g.Int(3)]
+		genAbrupt(g, p)
+	}
+	p.randSeed = uint64(1 + g.Int(1<<16))
 }
 
 // genSac draws the prelude: 0-3 sacrificial sessions whose frame sizes are taken from the writes of the main phase
